@@ -257,6 +257,21 @@ def toBits : FV → Option Nat
     if e < -1022 then some (s + (m * pow2 1074).floor.toNat)
     else some (s + ((e + 1023).toNat) * 2 ^ 52 + ((m * pow2 (52 - e)).floor.toNat - 2 ^ 52))
 
+/-- decode an x87 80-bit extended value: `se` = sign and 15-bit exponent, `m` = the 64-bit
+significand with its explicit integer bit (value m·2^(e-16383-63); e = 0: m·2^-16445) -/
+def ofBits80 (se m : Nat) : FV :=
+  let neg := decide ((se / 32768) % 2 = 1)
+  let e : Nat := se % 32768
+  if e = 32767 then (if m % 2 ^ 63 = 0 then .inf neg else .nan)
+  else if e = 0 then .fin neg ((m : Rat) * pow2 (-16445))
+  else .fin neg ((m : Rat) * pow2 ((e : Int) - 16446))
+
+/-- `(double)r` of a long double: one rounding to nearest even (overflow to infinity, gradual
+underflow); `print_f` narrows its `long double` parameter to `DOUBLE` before anything else -/
+def cvt64 : FV → FV
+  | .fin n m => FV.mk rnd64 n m
+  | x => x
+
 /-! ### print_f -/
 
 structure Cfg where
@@ -540,8 +555,8 @@ def resOf : M (List Char × Int) → Res
 def isFloatConv (c : Char) : Bool := c = 'f' || c = 'F' || c = 'e' || c = 'E' || c = 'g' || c = 'G'
 
 /-- one `%` directive of the format: the C06 parser, then `case 'f': … case 'G':` -/
-def directive {α : Type} (A : Arith α) (cfg : Cfg) (fuel : Nat) (begin : List Char) (stars : List Arg) (x : α) (nanNeg : Bool) :
-    M (List Char × Int × List Char × List Arg) :=
+def directive {α : Type} (A : Arith α) (cfg : Cfg) (fuel : Nat) (begin : List Char) (stars : List Arg) (x : α) (nanNeg : Bool)
+    (allowL : Bool := false) : M (List Char × Int × List Char × List Arg) :=
   let (s, ops) := flagsLoop begin.tail {}
   match getWidth s stars ops with
   | none => .error .unmodelled
@@ -553,8 +568,10 @@ def directive {α : Type} (A : Arith α) (cfg : Cfg) (fuel : Nat) (begin : List 
       -- char c = *format; ops |= isupper(c) ? OPS_SPEC_UPPER_CASE : 0;
       let c := hd s
       let ops := if c.isUpper then { ops with upper := true } else ops
-      if isFloatConv c && ops.len ≠ .bigL then
-        -- tmp.ld = va_arg(args, double);
+      -- `allowL`: the argument `x` is the long double of an `L` directive, already narrowed by
+      -- print_f's first statement `r = (DOUBLE)r` (see `cvt64`); without it an `L` is not modelled
+      if isFloatConv c && (allowL || ops.len ≠ .bigL) then
+        -- tmp.ld = ops & OPS_LEN_LONGFP ? va_arg(args, long double) : va_arg(args, double);
         -- print_f(…, tmp.ld, width, precision, ops, 10, tolower(c) == 'e', tolower(c) == 'g')
         match printF A cfg fuel x nanNeg width precision ops (c = 'e' || c = 'E') (c = 'g' || c = 'G') with
         | .ok (out, pc) => .ok (out, pc, s.tail, stars)
@@ -563,16 +580,16 @@ def directive {α : Type} (A : Arith α) (cfg : Cfg) (fuel : Nat) (begin : List 
 
 /-- `for (begin = format; *format; begin = ++format)` for formats made of literal text and
 floating directives, all of which print the same argument `x` (the ops carry one) -/
-def fmtLoop {α : Type} (A : Arith α) (cfg : Cfg) (fuel : Nat) (x : α) (nanNeg : Bool) :
+def fmtLoop {α : Type} (A : Arith α) (cfg : Cfg) (fuel : Nat) (x : α) (nanNeg : Bool) (allowL : Bool := false) :
     Nat → List Char → List Arg → List Char → Int → Res
   | _, [], _, out, pc => .done out pc
   | 0, _ :: _, _, _, _ => .diverged
   | n + 1, c :: cs, stars, out, pc =>
     if c = NUL then .done out pc
-    else if c ≠ '%' then fmtLoop A cfg fuel x nanNeg n cs stars (out ++ [c]) (pc + 1)
+    else if c ≠ '%' then fmtLoop A cfg fuel x nanNeg allowL n cs stars (out ++ [c]) (pc + 1)
     else
-      match directive A cfg fuel (c :: cs) stars x nanNeg with
-      | .ok (emit, dpc, rest, stars) => fmtLoop A cfg fuel x nanNeg n rest stars (out ++ emit) (pc + dpc)
+      match directive A cfg fuel (c :: cs) stars x nanNeg allowL with
+      | .ok (emit, dpc, rest, stars) => fmtLoop A cfg fuel x nanNeg allowL n rest stars (out ++ emit) (pc + dpc)
       | .error .fault => .fault
       | .error .undef => .undef
       | .error .diverged => .diverged
@@ -582,7 +599,8 @@ def fmtLoop {α : Type} (A : Arith α) (cfg : Cfg) (fuel : Nat) (x : α) (nanNeg
 divisions / 324 multiplications by ten -/
 def FUEL : Nat := 1200
 
-def printfF {α : Type} (A : Arith α) (cfg : Cfg) (fmt : List Char) (stars : List Arg) (x : α) (nanNeg : Bool) : Res :=
-  fmtLoop A cfg FUEL x nanNeg (fmt.length + 1) fmt stars [] 0
+def printfF {α : Type} (A : Arith α) (cfg : Cfg) (fmt : List Char) (stars : List Arg) (x : α) (nanNeg : Bool)
+    (allowL : Bool := false) : Res :=
+  fmtLoop A cfg FUEL x nanNeg allowL (fmt.length + 1) fmt stars [] 0
 
 end Igris.C13
